@@ -146,6 +146,13 @@ def apiOp (op : String) (args : List String) : Option String :=
   | "SkipValueFast", [d, st] => do
     let d ← hexToBytes d; let st ← parseStack st
     pure (fmtR (skipValueFast d st).1 (fun _ => "-"))
+  | "StackLen", [fn, d, st] => do
+    -- length of the stack slice stored back in the Buffer after the call
+    let d ← hexToBytes d; let st ← parseStack st
+    if fn == "SkipValue" then pure (toString (skipValue d st).2.size)
+    else if fn == "SkipValueFast" then pure (toString (skipValueFast d st).2.size)
+    else if fn == "Valid" then pure (toString (valid d st).2.size)
+    else none
   | "NextToken", [d] => do let d ← hexToBytes d; pure (tokStr (nextToken d))
   | "NextTokenType", [d] => do let d ← hexToBytes d; pure (tokTypeStr (nextTokenType d))
   | "ReadUint64", [d] => do let d ← hexToBytes d; pure (fmtR (readUint64 d) (fun v => toString v.toNat))
